@@ -681,8 +681,13 @@ fn parse_return(
     // Is this two expressions `return`, `foo()`, or `return foo()`?
     // We solve this ambiguity by requiring the returned expression to
     // start on the same line as the `return` keyword.
+    //
+    // A closing delimiter can't start an expression, so `{ return }`
+    // and `foo(return)` are a bare `return` too.
     if let Some(next_token) = tokens.peek() {
-        if return_token.position.end_line_number == next_token.position.line_number {
+        if return_token.position.end_line_number == next_token.position.line_number
+            && !matches!(next_token.text, "}" | ")" | "]" | ",")
+        {
             let returned_expr = parse_expression(tokens, id_gen, diagnostics);
             pos = Position::merge(&pos, &returned_expr.position);
             expr = Some(Rc::new(returned_expr));
